@@ -243,3 +243,45 @@ Print Assumptions C01_encode_wellformed_translated.
 Print Assumptions C01_encode_models_agree.
 Print Assumptions C01_encode_tag_mapping_translated.
 Print Assumptions C01_encode_omitempty_translated.
+
+(* ---------- []any and map[string]any of C01's universe (Proofs/C01_enc_any.v) ----------
+   a value whose dynamic types are the ones an interface holds on C02's side (int8/16/32/64, float32/64, string, []byte,
+   []int32, []int64, []any and map[string]any of these, to any depth) is embedded as that dynamic value (to_aval), and
+   reaches C02's model held by an interface (Encode's parameter is `any`) or, for a []any / map[string]any, at its static
+   type (any_static).  On it the two hand models agree - the tag of a []any from its first element, the typed-array
+   branches and their element test, the mixed-tag refusal of lists, the TagEnd refusal and writeTag of map entries -
+   and whatever C01's model emits is doc fmt name tr for the tree the translated pieces of C02 write *)
+From GoMC Require Proofs.C01_enc_any.
+Theorem C01_encode_any_models_agree : forall v a T X,
+  C01_enc_any.to_aval v = Some a -> val_ok v = true -> C01_enc_any.any_static a T X ->
+  get_tag v = C02.get_tag T X /\ C01_enc_tie.same_out (C02.enc T X) (write_value v (get_tag v)).
+Proof. exact C01_enc_any.any_models_agree. Qed.
+Theorem C01_encode_any_wellformed_translated : forall f name v a T X bs,
+  C01_enc_any.to_aval v = Some a -> val_ok v = true -> C01_enc_any.any_static a T X -> marshal f name v = MOk bs ->
+  exists tr, C02.enc T X = C02.TOk tr /\ tag_id tr = C02.get_tag T X /\ get_tag v = tag_id tr /\ bs = doc f name tr /\
+    (C02.name_too_long name = false ->
+     C02_syntax.run_encode C02gen.c02_encode_steps false (match f with Net => true | File => false end) C02_tie3.wtag
+                (Z.of_N (tag_id tr)) (C02_tie3.zs name) (Some (C02_tie3.zs (payload tr))) [] false = Some (C02_tie3.zs bs)) /\
+    (C02.any_ok a = true -> wf tr /\ value_of tr = a /\
+       (name_ok name = true -> nest_ok tr -> forall rest fuel, (length (payload tr) < fuel)%nat ->
+          run_flat (Decode f (C02.dec_tree fuel)) (bs ++ rest) = FOk (root_name f name, tr) rest)).
+Proof. exact C01_enc_any.encode_any_translated. Qed.
+(* the static and the dynamic []any / map[string]any are written alike by C02's model *)
+Theorem C01_encode_any_static_dynamic : forall a T X, C01_enc_any.any_static a T X ->
+  C02.get_tag T X = C02.any_tag a /\ C02.enc T X = C02.any_tree a.
+Proof. exact C01_enc_any.static_any. Qed.
+
+Print Assumptions C01_encode_any_models_agree.
+Print Assumptions C01_encode_any_wellformed_translated.
+Print Assumptions C01_encode_any_static_dynamic.
+
+(* slices OF these (Proofs/C01_enc_nest.v): [][]any, []map[string]any, [][]T, ... to any nesting depth n - the elements
+   embedded by either of the two embeddings above or, recursively, by this one; always a TagList, element by element with
+   the mixed-tag refusal *)
+From GoMC Require Proofs.C01_enc_nest.
+Theorem C01_encode_nested_models_agree : forall n v T X,
+  C01_enc_nest.embn n v T X -> val_ok v = true ->
+  get_tag v = C02.get_tag T X /\ C01_enc_tie.same_out (C02.enc T X) (write_value v (get_tag v)).
+Proof. exact C01_enc_nest.embn_agree. Qed.
+
+Print Assumptions C01_encode_nested_models_agree.
